@@ -79,13 +79,17 @@ Proof.
   - eapply specR_spec; [apply CX_rel|]. apply (gg_peek_while_kind_acc CX CX_ok). intros a. apply (H a).
 Qed.
 
-Lemma rl_loop_kind_acc {Acc} k (run : Acc -> PM Acc) q :
-  k <> TkEof -> (forall acc, rl_sim (rg_starts (rg_is k)) (run acc) q) -> rg_progress q ->
+(* P: an extra condition on the view that is inherited by suffixes (a length bound, for the nested families) *)
+Definition rl_suffix_closed (P : list rg_token -> Prop) : Prop := forall pre ts, P (pre ++ ts) -> P ts.
+
+Lemma rl_loop_kind_acc {Acc} (P : list rg_token -> Prop) k (run : Acc -> PM Acc) q :
+  rl_suffix_closed P ->
+  k <> TkEof -> (forall acc, rl_sim (fun ts => P ts /\ rg_starts (rg_is k) ts) (run acc) q) -> rg_progress q ->
   forall fuel acc s acc' s', p_peek_while_kind_acc fuel k run acc s = POk (acc', s') ->
-  rl_ok s -> tr_ok (ps_rec s) -> forall n, (length (rl_sigs s) <= n)%nat ->
+  rl_ok s -> tr_ok (ps_rec s) -> P (rl_sigs s) -> forall n, (length (rl_sigs s) <= n)%nat ->
   rl_sound (rg_many_f n (rg_is k) q) s s' /\ rl_complete (rg_many_f n (rg_is k) q) s s'.
 Proof.
-  intros Hne Hrun Hprog. induction fuel as [|f IH]; intros acc s acc' s' E Hok Ht n Hn; [discriminate|].
+  intros HP Hne Hrun Hprog. induction fuel as [|f IH]; intros acc s acc' s' E Hok Ht Hps n Hn; [discriminate|].
   destruct Hok as [Hinv Ha]. destruct (rl_inv_cur _ Hinv) as (t & Hc & Hi & _).
   cbn [p_peek_while_kind_acc] in E. unfold p_bind at 1 in E. rewrite (peek_some t s Hc) in E.
   pose proof (rl_peek_is_view _ _ _ Hinv Hc Hne) as Hview.
@@ -96,7 +100,7 @@ Proof.
     apply rl_debug_assert_run in Ed. subst s2.
     destruct (Hrun acc) as [Hg1 Hr1]. symmetry in Hview.
     assert (Hst : rg_starts (rg_is k) (rl_sigs s)) by (apply rl_starts_head; exact Hview).
-    destruct (Hr1 s a1 s1 E1 (conj Hinv Ha) Ht Hst) as [Hs1 Hcm1].
+    destruct (Hr1 s a1 s1 E1 (conj Hinv Ha) Ht (conj Hps Hst)) as [Hs1 Hcm1].
     destruct (rl_gen_run _ _ _ _ Hg1 E1 Ht) as (Ht1 & Hc1 & Hl1 & Hx1).
     pose proof (rl_gen_peek_while_kind_acc f k run (fun a => proj1 (Hrun a)) a1) as Hg2.
     destruct (rl_gen_run _ _ _ _ Hg2 E Ht1) as (Ht2 & Hc2 & Hl2 & Hx2).
@@ -107,7 +111,8 @@ Proof.
       destruct (Hs1 He1) as (Hok1 & [pre1 Hpre1] & Hq1).
       pose proof (Hprog _ _ Hq1) as Hlt. destruct n as [|n]; [cbn [length] in Hn, Hlt; lia|].
       assert (Hn1 : (length (rl_sigs s1) <= n)%nat) by (cbn [length] in Hn, Hlt; lia).
-      destruct (IH a1 s1 acc' s' E Hok1 Ht1 n Hn1) as [Hs2 _].
+      assert (Hps1 : P (rl_sigs s1)) by (apply (HP pre1); rewrite <- Hpre1; exact Hps).
+      destruct (IH a1 s1 acc' s' E Hok1 Ht1 Hps1 n Hn1) as [Hs2 _].
       destruct (Hs2 He2) as (Hok2 & [pre2 Hpre2] & Hq2).
       split; [exact Hok2|split].
       * exists (pre1 ++ pre2). rewrite Hpre1, Hpre2. apply app_assoc.
@@ -118,7 +123,8 @@ Proof.
       destruct (Hs1 He1) as (Hok1 & [pre1 Hpre1] & Hq1).
       pose proof (Hprog _ _ Eq1) as Hlt.
       assert (Hn1 : (length (rl_sigs s1) <= n)%nat) by (rewrite Hr1'; cbn in Hn, Hlt; lia).
-      destruct (IH a1 s1 acc' s' E Hok1 Ht1 n Hn1) as [_ Hcm2].
+      assert (Hps1 : P (rl_sigs s1)) by (apply (HP pre1); rewrite <- Hpre1; exact Hps).
+      destruct (IH a1 s1 acc' s' E Hok1 Ht1 Hps1 n Hn1) as [_ Hcm2].
       assert (Hroom1 : rl_roomy s1) by (eapply rl_roomy_step; eauto; rewrite Es; exact Hpre1).
       rewrite <- Hr1' in Hq. destruct (Hcm2 Hroom1 r Hq) as [He2 Hr2]. split; [congruence|exact Hr2].
   - (* exit *)
@@ -128,6 +134,21 @@ Proof.
     + intros _ r Hq. rewrite Hstop in Hq. injection Hq as <-. auto.
 Qed.
 
+(* with explicit list fuel n (the nested families of the recogniser share one fuel) *)
+Lemma rl_sim_many_kind_f (P : list rg_token -> Prop) k (run : PM unit) q fuel n :
+  rl_suffix_closed P ->
+  k <> TkEof -> rl_sim (fun ts => P ts /\ rg_starts (rg_is k) ts) run q -> rg_progress q ->
+  rl_sim (fun ts => P ts /\ (length ts <= n)%nat) (p_peek_while_kind fuel k run) (rg_many_f n (rg_is k) q).
+Proof.
+  intros HP Hne Hrun Hprog. split.
+  - unfold p_peek_while_kind. apply rl_gen_peek_while_kind_acc. intros _. apply Hrun.
+  - intros s a s' E Hok Ht [Hp Hn]. unfold p_peek_while_kind in E.
+    eapply (rl_loop_kind_acc P k (fun _ : unit => run) q HP Hne (fun _ => Hrun) Hprog); eauto.
+Qed.
+
+Lemma rl_suffix_closed_any : rl_suffix_closed rl_any.
+Proof. intros pre ts _. exact I. Qed.
+
 Lemma rl_sim_many_kind k (run : PM unit) q fuel :
   k <> TkEof -> rl_sim (rg_starts (rg_is k)) run q -> rg_progress q ->
   rl_sim rl_any (p_peek_while_kind fuel k run) (rg_many (rg_is k) q).
@@ -135,7 +156,9 @@ Proof.
   intros Hne Hrun Hprog. split.
   - unfold p_peek_while_kind. apply rl_gen_peek_while_kind_acc. intros _. apply Hrun.
   - intros s a s' E Hok Ht _. unfold p_peek_while_kind in E. unfold rg_many.
-    eapply (rl_loop_kind_acc k (fun _ : unit => run) q Hne (fun _ => Hrun) Hprog); eauto.
+    assert (Hrun' : forall _ : unit, rl_sim (fun ts => rl_any ts /\ rg_starts (rg_is k) ts) run q).
+    { intros _. eapply rl_sim_weaken; [|exact Hrun]. intros ts [_ H]. exact H. }
+    eapply (rl_loop_kind_acc rl_any k (fun _ : unit => run) q rl_suffix_closed_any Hne Hrun' Hprog); eauto. exact I.
 Qed.
 
 (* ------------------------------------------------------------------ peek_while over a set of kinds: X* *)
